@@ -21,7 +21,8 @@ RULE = ("(a) closure of the reachable states of TraceSymbolTable under {add_symb
         "workers' puts)} from every reachable state (state = table content + cached-series content); (b) R in {2,3} "
         "rank files with different vocabularies x symbol numberings (every permutation of one rank's vocabulary with "
         "the others sorted or reversed; thorough: full products) x {sequential, virtual pool with every completion "
-        "order and worker count} x every rank<->file assignment: rows decode to the file's strings; (c) corpus of "
+        "order and worker count} x every rank<->file assignment: rows decode to the file's strings; (b') the ranks are "
+        "added to one Trace in every sequence of steps (ordered partitions; parse_single_rank or parse_multiple_ranks), ids must not move and every loaded rank must decode after every step; (c) corpus of "
         "2-rank traces: result bundle of 16 getters identical across numberings (sorted, reversed, rotations, "
         "adjacent transpositions, every symbol moved to id 0, per rank), parse modes and completion orders, and identical to separate-process "
         "runs under 4 PYTHONHASHSEED values with the real fork pool. non-trivial = numbering or order differs "
@@ -152,6 +153,14 @@ def worlds(tier: str, stats: Dict[str, Any]) -> Iterator[Any]:
     stats["transitions"] += 2
     yield dict(mode="decode", tset=[4, 5], ids=[0, 1], plan=[None, None], sched=None)
     yield dict(mode="decode", tset=[5, 4], ids=[0, 3], plan=[None, None], sched=[[1, 0], 2])
+    # (b') the ranks are added to one Trace object in several steps
+    for tset in ([0, 1], [1, 2], [0, 1, 2]):
+        ids = [0, 1, 2][: len(tset)]
+        for steps in ordered_partitions(ids):
+            for single in ((False, True) if any(len(st) == 1 for st in steps) else (False,)):
+                for numbering in (None, "reverse"):
+                    stats["transitions"] += 1
+                    yield dict(mode="stepwise", tset=tset, ids=ids, steps=steps, single_api=single, numbering=numbering)
     # (c)
     for k in CORPUS:
         for part in range(BUNDLE_PARTS):
@@ -312,6 +321,77 @@ def load_with(ranks_events: Dict[int, List[Dict[str, Any]]], plan, sched, names=
         sc.drop(d)
 
 
+def ordered_partitions(items):
+    """every way of splitting items into a sequence of non-empty steps (order of steps matters, order inside a step
+    is ascending), except the single step holding everything (that is the ordinary load)"""
+    items = list(items)
+    out = []
+
+    def rec(rest, acc):
+        if not rest:
+            if len(acc) > 1:
+                out.append([list(x) for x in acc])
+            return
+        n = len(rest)
+        for mask in range(1, 2 ** n):
+            step = [rest[i] for i in range(n) if mask >> i & 1]
+            rec([x for x in rest if x not in step], acc + [step])
+
+    rec(items, [])
+    return out
+
+
+def check_stepwise(world) -> Dict[str, Any]:
+    from hta.common.trace import Trace
+    from mc import htaenv, nondet
+
+    viol: List[Any] = []
+    evl = [tmpl(k, E0) for k in world["tset"]]
+    ranks = {rid: evs for rid, evs in zip(world["ids"], evl)}
+    sc = htaenv.scratch()
+    d = sc.fresh()
+    execs = 0
+    try:
+        for i, (r, evs) in enumerate(ranks.items()):
+            kineto.write_file(os.path.join(d, f"z{9 - i}.json"), kineto.trace_dict(evs, r))
+        nondet.SYM.begin(world["numbering"])
+        try:
+            t = Trace(trace_dir=d)
+            known: Dict[str, int] = {}
+            loaded: List[int] = []
+            for step in world["steps"]:
+                execs += 1
+                if len(step) == 1 and world["single_api"]:
+                    t.parse_single_rank(step[0])
+                else:
+                    t.parse_multiple_ranks(list(step), use_multiprocessing=False)
+                loaded += step
+                st = t.symbol_table.get_sym_table()
+                idx = t.symbol_table.get_sym_id_map()
+                tag = f"stepwise/after-step-{len(loaded)}-ranks"
+                if any(idx.get(s_) != i for i, s_ in enumerate(st)) or len(idx) != len(st):
+                    viol.append((f"{tag}/global-table-not-bijective", dict(table=st, world=world)))
+                moved = {s_: (i, idx.get(s_)) for s_, i in known.items() if idx.get(s_) != i}
+                if moved:
+                    viol.append((f"{tag}/ids-changed-when-ranks-were-added", dict(moved=moved, world=world)))
+                known = dict(idx)
+                for rid in loaded:
+                    df = t.traces[rid]
+                    evs = ranks[rid]
+                    want = {i: (e["name"], e["cat"]) for i, e in enumerate(evs) if e.get("dur") is not None and e.get("cat")}
+                    try:
+                        got = {int(i): (st[int(n)], st[int(c)]) for i, n, c in zip(df["index"], df["name"], df["cat"])}
+                    except IndexError:
+                        got = "id outside the table"
+                    if got != want:
+                        viol.append((f"{tag}/rows-decode-to-wrong-strings", dict(rank=rid, got=got, expected=want, world=world)))
+        finally:
+            nondet.SYM.end()
+    finally:
+        sc.drop(d)
+    return dict(viol=_dedupe(viol), nontrivial=True, outcome=("stepwise", str(world["steps"])), execs=execs, extra_transitions=execs - 1)
+
+
 def plan_for(events_list, perms) -> Dict[Any, Any]:
     plan = {}
     for evs, p in zip(events_list, perms):
@@ -329,6 +409,8 @@ def check(world) -> Dict[str, Any]:
         r = hist_bfs()
         return dict(viol=_dedupe(r["viol"]), nontrivial=True, outcome=("hist", r["states"]), execs=r["transitions"],
                     extra_transitions=r["transitions"], extra_states=r["states"])
+    if mode == "stepwise":
+        return check_stepwise(world)
     if mode == "decode":
         evl = [tmpl(k, E0) for k in world["tset"]]
         ranks = {rid: evs for rid, evs in zip(world["ids"], evl)}
